@@ -146,6 +146,10 @@ TRACT_TEXT = {'clean_qq': 'NE, N2', 'suppress_lot_divs': 'N/2 of Lot 1', 'qq_dep
               'qq_depth_max': 'N/2 NE/4 NW/4', 'break_halves': 'N/2 N/2 N/2'}
 
 
+DEPTH_FAMILY = ('qq_depth', 'qq_depth_min', 'qq_depth_max')
+COLON_FAMILY = ('sec_colon_required', 'sec_colon_cautious')
+
+
 def values_for(s):
     if s in BOOLS:
         return [True, False]
@@ -300,8 +304,12 @@ def run(ctx):
         for v in values_for(s):
             for rep_i in range(3 if ctx.thorough else 1):
                 r = rng.fork(900000 + len(items))
+                # the base configuration never contains another member of the depth family when a depth setting is under
+                # test (qq_depth vs qq_depth_min/max resolve against each other by their own rule, which the property
+                # does not state), nor the other colon mode
+                fam = DEPTH_FAMILY if s in DEPTH_FAMILY else (COLON_FAMILY if s in COLON_FAMILY else ())
                 basec = '' if rep_i == 0 else cfg_text({k: x for k, x in rand_cfg_dict(r).items()
-                                                         if k not in (s, 'wait_to_parse', 'layout', 'parse_qq')})
+                                                         if k not in (s, 'wait_to_parse', 'layout', 'parse_qq') and k not in fam})
                 try:
                     check_desc_channels(rep, s, v, basec, items, hists)
                 except Exception as e:  # noqa
